@@ -2,10 +2,12 @@ package checks
 
 import (
 	"fmt"
+	"io"
 	"net/http/httptest"
 	"sort"
 	"strings"
 
+	"github.com/gookit/color"
 	"github.com/gookit/rux"
 
 	"verif/mc/fw"
@@ -20,6 +22,8 @@ type progCase struct {
 	Strict bool `json:"strict_last_slash,omitempty"`
 	// Cache: the router caches dynamic matches (capacity 8); every route is requested a second time (answered from the cache)
 	Cache bool `json:"route_cache,omitempty"`
+	// Debug: rux's debug mode is on while the program is registered (process-global: such a program runs alone)
+	Debug bool `json:"debug_mode_at_registration,omitempty"`
 }
 
 // ---- model interpretation ---------------------------------------------------
@@ -348,13 +352,30 @@ func progRun(c progCase, mode string, st *fw.Stats) []fw.Viol {
 	if c.Cache {
 		more = append(more, rux.CachingWithNum(8))
 	}
+	if c.Debug {
+		chainDebugMu.Lock()
+		color.SetOutput(io.Discard)
+		rux.Debug(true)
+	} else {
+		chainDebugMu.RLock()
+	}
 	pr, pv := execProgram(c.Prog, mode == "C12", c.Strict, more...)
+	if c.Debug {
+		rux.Debug(false)
+		color.ResetOutput()
+		chainDebugMu.Unlock()
+	} else {
+		chainDebugMu.RUnlock()
+	}
 	ps := progString(c.Prog)
 	if c.Strict {
 		ps += " | on a StrictLastSlash router"
 	}
 	if c.Cache {
 		ps += " | on a router that caches dynamic matches"
+	}
+	if c.Debug {
+		ps += " | registered in debug mode"
 	}
 	if pv != nil {
 		add("program:panic", fmt.Sprintf("program [%s]: registration panicked: %v", ps, pv))
@@ -719,6 +740,20 @@ func progGen(tier, mode string, emit func(progCase)) {
 	for _, p := range progSpecials() {
 		emit(progCase{Prog: p})
 		emit(progCase{Prog: p, Strict: true})
+	}
+	// programs registered while rux's debug mode is on: groups / controllers / resources with 2 and 3 middleware of one call
+	{
+		route := refmodel.Stmt{Kind: "route", K: 1, K2: 1}
+		for _, k := range []int{2, 3} {
+			for _, p := range [][]refmodel.Stmt{
+				{{Kind: "group", Prefix: "/g", K: k, Body: []refmodel.Stmt{route}}},
+				{{Kind: "use", K: 2}, {Kind: "group", Prefix: "/g", K: k, Body: []refmodel.Stmt{{Kind: "group", Prefix: "/h", K: k, Body: []refmodel.Stmt{route}}, route}}, route},
+				{{Kind: "controller", Prefix: "/c", K: k}, {Kind: "resource", Prefix: "/", K: k}},
+				{{Kind: "group", Prefix: "/g", K: k, Spare: true, Body: []refmodel.Stmt{{Kind: "use", K: 2}, route, {Kind: "controller", Prefix: "/c", K: k}}}},
+			} {
+				emit(progCase{Prog: p, Debug: true})
+			}
+		}
 	}
 	n := 4
 	if tier == "thorough" {
